@@ -85,6 +85,29 @@ def guard_exempt(func, sub):
                         dn = dotted(d) if isinstance(d, ast.Attribute) else None
                         if dn and dn.startswith("BondType."):
                             exempt.add(dn.split(".")[1])
+            # the loop runs over the positions that a mask leaves: `for i in np.where(~np.isin(ARR[:, c], (BondType.A, ..)))[0]`
+            # and the table is subscripted with ARR[i, c]
+            it = loop.iter if isinstance(loop, ast.For) else None
+            if isinstance(it, ast.Subscript) and isinstance(it.slice, ast.Constant) and it.slice.value == 0 and isinstance(it.value, ast.Call) \
+                    and call_name(it.value) in ("np.where", "np.nonzero", "np.flatnonzero") and len(it.value.args) == 1 and isinstance(loop.target, ast.Name):
+                m = it.value.args[0]
+                neg = isinstance(m, ast.UnaryOp) and isinstance(m.op, (ast.Invert, ast.Not))
+                m = m.operand if neg else m
+                if isinstance(m, ast.Name):
+                    defs = [st.value for st in ast.walk(func) if isinstance(st, ast.Assign) and len(st.targets) == 1
+                            and isinstance(st.targets[0], ast.Name) and st.targets[0].id == m.id]
+                    m = defs[0] if len(defs) == 1 else None
+                if neg and isinstance(m, ast.Call) and call_name(m) == "np.isin" and len(m.args) == 2 and isinstance(m.args[1], (ast.Tuple, ast.List)) \
+                        and isinstance(m.args[0], ast.Subscript) and isinstance(m.args[0].slice, ast.Tuple) and len(m.args[0].slice.elts) == 2 \
+                        and isinstance(m.args[0].slice.elts[0], ast.Slice) and m.args[0].slice.elts[0].lower is None and m.args[0].slice.elts[0].upper is None:
+                    arr, col = ast.unparse(m.args[0].value), ast.unparse(m.args[0].slice.elts[1])
+                    key = sub.slice if isinstance(sub, ast.Subscript) else None
+                    from ..exprnorm import same_expr as _se
+                    if key is not None and _se(key, f"{arr}[{loop.target.id}, {col}]"):
+                        for e in m.args[1].elts:
+                            dn = dotted(e)
+                            if dn and dn.startswith("BondType."):
+                                exempt.add(dn.split(".")[1])
     return exempt
 
 
